@@ -17,10 +17,16 @@
 //!   xcomplete <who> <initiator> <(j.n,…)>         router CompleteLoan sent directly
 //! payload = [act;act;…] with act = fund:j:n | out:j:dst:n | fail | complete:I:(j.n,…) | chain:I:(j.n,…):[payload]
 //! (asset index j = nv names an asset without a vault).
+//! STRAY COINS: rloan / collect / xnext / xcomplete lines may end in a token `+<sel>:<amount>`: the sender of the
+//! message (rloan / xnext / xcomplete: `who`, 3 = the funding contract attaching its own coins; collect: bob)
+//! attaches `amount` > 0 coins the message does not ask for — sel = j < nv: the native denom of vault j's asset
+//! (nobody holds such a coin when that asset is a cw20), sel = nv: the denom `unovault` no vault knows (accounts
+//! 0..3 hold 2^100 of it).
 //! Observation: v<j>=pend,all,burned,ctr  b<j>=balances of asset j for accounts 0..5, vaults 0..nv-1  q=GetPaybackAmount(1000000007) per vault
+//!              junk=balances of `unovault` for accounts 0..5, vaults 0..nv-1
 use crate::common::*;
 use crate::engines::vault::{adv_contract, cw20_bal, AdvMsg};
-use cosmwasm_std::{coins, to_json_binary, Addr, BankMsg, Binary, CosmosMsg, Decimal, Empty, Uint128, Uint512, WasmMsg};
+use cosmwasm_std::{coins, to_json_binary, Addr, BankMsg, Binary, Coin, CosmosMsg, Decimal, Empty, Uint128, Uint512, WasmMsg};
 use cw20::{Cw20Coin, Cw20ExecuteMsg, Cw20QueryMsg};
 use cw_multi_test::{App, AppBuilder, BankKeeper, ContractWrapper, Executor};
 use white_whale_std::fee::{Fee, VaultFee};
@@ -208,6 +214,8 @@ pub struct Obs {
     pub q: Vec<u128>,
     /// LP supply per vault (monitors only, not printed)
     pub sup: Vec<u128>,
+    /// balances of the denom without a vault: accounts 0..5 and every vault
+    pub junk: Vec<u128>,
 }
 impl Obs {
     fn show(&self) -> String {
@@ -215,6 +223,7 @@ impl Obs {
         let mut parts: Vec<String> = self.v.iter().enumerate().map(|(k, v)| format!("v{k}={}", j(v))).collect();
         parts.extend(self.b.iter().enumerate().map(|(k, v)| format!("b{k}={}", j(v))));
         parts.push(format!("q={}", j(&self.q)));
+        parts.push(format!("junk={}", j(&self.junk)));
         parts.join(" ")
     }
 }
@@ -291,6 +300,10 @@ impl World {
             )
             .unwrap();
         accts[ROUTER] = router.clone();
+        for a in accts[..4].iter() {
+            app.sudo(cw_multi_test::SudoMsg::Bank(cw_multi_test::BankSudo::Mint { to_address: a.to_string(), amount: coins(1u128 << 100, NOVAULT) }))
+                .unwrap();
+        }
         let mut tokens = vec![];
         let mut vaults = vec![];
         let mut lps = vec![];
@@ -424,7 +437,17 @@ impl World {
             let ti: cw20::TokenInfoResponse = q.query_wasm_smart(&self.lps[j], &Cw20QueryMsg::TokenInfo {}).unwrap();
             o.sup.push(ti.total_supply.u128());
         }
+        o.junk = self.accts.iter().chain(self.vaults.iter()).map(|a| q.query_balance(a, NOVAULT).unwrap().amount.u128()).collect();
         o
+    }
+
+    /// the coins of a stray-coin suffix: sel < nv the native denom of vault sel's asset, sel = nv the denom without a vault
+    fn stray_coins(&self, stray: Stray) -> Vec<Coin> {
+        match stray {
+            Some((sel, n)) if sel < self.nv => coins(n, DENOMS[sel]),
+            Some((_, n)) => coins(n, NOVAULT),
+            None => vec![],
+        }
     }
 
     fn asset_info(&self, j: usize) -> AssetInfo {
@@ -526,12 +549,15 @@ impl World {
     }
 
     /// execute `msg` on the router as account `who` (0..2 directly, 3 = the funding contract via `Run`)
-    fn call_router(&mut self, who: usize, msg: &rmsg::ExecuteMsg) -> bool {
+    fn call_router(&mut self, who: usize, msg: &rmsg::ExecuteMsg, funds: &[Coin]) -> bool {
         let r = if who < 3 {
             let (a, r) = (self.accts[who].clone(), self.router.clone());
-            guarded(|| self.app.execute_contract(a, r, msg, &[]))
+            guarded(|| self.app.execute_contract(a, r, msg, funds))
         } else {
-            let run = AdvMsg::Run { msgs: vec![self.wasm(self.router.as_str(), to_json_binary(msg).unwrap())] };
+            // the funding contract attaches the coins (its own) to the message it sends
+            let inner: CosmosMsg =
+                WasmMsg::Execute { contract_addr: self.router.to_string(), msg: to_json_binary(msg).unwrap(), funds: funds.to_vec() }.into();
+            let run = AdvMsg::Run { msgs: vec![inner] };
             let (a, adv) = (self.accts[0].clone(), self.adv.clone());
             guarded(|| self.app.execute_contract(a, adv, &run, &[]))
         };
@@ -565,7 +591,8 @@ struct Sim<'a> {
 }
 impl<'a> Sim<'a> {
     fn mv(&mut self, j: usize, src: usize, dst: usize, n: u128) -> Option<()> {
-        if (n == 0 && self.w.kinds[j] == 0) || self.b[j][src] < n {
+        // (row nv is the denom without a vault: a native one)
+        if (n == 0 && self.w.kinds.get(j).map_or(true, |k| *k == 0)) || self.b[j][src] < n {
             return None;
         }
         self.b[j][src] -= n;
@@ -652,6 +679,22 @@ impl<'a> Sim<'a> {
     }
 }
 
+/// stray coins attached to a message: (asset selector, amount)
+pub type Stray = Option<(usize, u128)>;
+
+/// `+<sel>:<amount>`
+pub fn parse_stray(t: &str) -> Option<(usize, u128)> {
+    let (a, b) = t.strip_prefix('+')?.split_once(':')?;
+    if a.is_empty() || b.is_empty() || !a.bytes().all(|c| c.is_ascii_digit()) || !b.bytes().all(|c| c.is_ascii_digit()) {
+        return None;
+    }
+    let (sel, n): (usize, u128) = (a.parse().ok()?, b.parse().ok()?);
+    if n == 0 {
+        return None;
+    }
+    Some((sel, n))
+}
+
 #[derive(Default)]
 pub struct VaultChain {
     w: Option<World>,
@@ -699,10 +742,19 @@ impl VaultChain {
     }
 
     /// returns (success, what the property expects: the balance matrix and fee charges, None = must fail)
-    fn exec_op(&mut self, ws: &[&str], mon: &mut Monitor) -> Option<bool> {
+    fn exec_op(&mut self, ws: &[&str], stray: Stray, mon: &mut Monitor) -> Option<bool> {
         let w = self.w.as_mut()?;
         let before = self.last.clone();
-        let line = ws.join(" ");
+        let line = match stray {
+            Some((sel, n)) => format!("{} +{sel}:{n}", ws.join(" ")),
+            None => ws.join(" "),
+        };
+        if let Some((sel, _)) = stray {
+            if sel > w.nv || !matches!(ws[0], "rloan" | "collect" | "xnext" | "xcomplete") {
+                return None;
+            }
+        }
+        let extra = w.stray_coins(stray);
         let idx = |s: &str| -> Option<usize> { s.parse::<usize>().ok() };
         match ws[0] {
             "rloan" => {
@@ -716,19 +768,27 @@ impl VaultChain {
                     return None;
                 }
                 // the property's expectation, from the real quotes taken BEFORE the transaction
-                let mut sim = Sim {
-                    w: &*w,
-                    b: before.b.clone(),
-                    inflight: vec![false; w.nv],
-                    charged: vec![(0, 0); w.nv],
-                    quotes: vec![],
-                    max_chain: 0,
+                // (row nv of the balance matrix: the denom without a vault)
+                let mut bm = before.b.clone();
+                bm.push(before.junk.clone());
+                let mut sim = Sim { w: &*w, b: bm, inflight: vec![false; w.nv], charged: vec![(0, 0); w.nv], quotes: vec![], max_chain: 0 };
+                // coins attached to the FlashLoan message are the router's before anything else happens
+                // (a cw20 asset has no coin: such a message cannot be funded)
+                let arrived = match stray {
+                    Some((sel, n)) => {
+                        if sel < w.nv && w.kinds[sel] != 0 {
+                            None
+                        } else {
+                            sim.mv(sel, who, ROUTER, n)
+                        }
+                    }
+                    None => Some(()),
                 };
-                let expect_ok = match l.len() {
+                let expect_ok = arrived.and_then(|_| match l.len() {
                     0 => Some(()),
                     1 => sim.chain(who, &l, &pl),
                     _ => None, // more than one asset is refused
-                };
+                });
                 let (exp_b, charged, quotes, max_chain) = (sim.b, sim.charged, sim.quotes, sim.max_chain);
                 for (j, n, pb) in &quotes {
                     let f = w.fees[*j];
@@ -737,9 +797,29 @@ impl VaultChain {
                     });
                 }
                 let msg = rmsg::ExecuteMsg::FlashLoan { assets: l.iter().map(|(j, n)| w.asset(*j, *n)).collect(), msgs: w.racts_to_msgs(&pl) };
-                let ok = w.call_router(who, &msg);
+                let ok = w.call_router(who, &msg, &extra);
                 let after = w.observe();
                 let ctx = |what: &str| format!("{what}: op `{line}` before [{}] after [{}]", before.show(), after.show());
+                if let Some((sel, n)) = stray {
+                    mon.stat(&format!(
+                        "stray_rloan_{}_{}",
+                        if l.first().map_or(false, |e| e.0 == sel) { "borrowed_asset" } else if sel < w.nv { "other_vault_asset" } else { "no_vault_denom" },
+                        if ok { "ok" } else { "err" }
+                    ));
+                    let _ = n;
+                }
+                if ok && expect_ok.is_some() {
+                    let nv = w.nv;
+                    // the denom without a vault moves only as coins attached to a message: to the router, where it stays
+                    mon.check("C06", "router_chain_no_vault_denom_stays", after.junk == exp_b[nv], || ctx(&format!("expected balances of the denom without a vault {:?}", exp_b[nv])));
+                    if stray.is_some() {
+                        // coins attached to the router's FlashLoan are the router's while the transaction runs: of the
+                        // borrowed asset they leave with the remaining proceeds to the initiator, no vault receives more
+                        // than its quote, of any other asset they stay with the router (also for a call without assets)
+                        let all_ok = (0..nv).all(|j| after.b[j] == exp_b[j]);
+                        mon.check("C06", "router_chain_attached_coins_not_kept", all_ok, || ctx(&format!("coins attached to the router's FlashLoan: expected balances {exp_b:?}")));
+                    }
+                }
                 if l.len() > 1 {
                     mon.check("C06", "router_chain_multi_asset_refused", !ok, || ctx("router accepted a FlashLoan over several assets"));
                 }
@@ -819,10 +899,38 @@ impl VaultChain {
                 let ok = if j >= w.nv {
                     false
                 } else {
-                    let r = guarded(|| w.app.execute_contract(w.accts[1].clone(), w.vaults[j].clone(), &vmsg::ExecuteMsg::CollectProtocolFees {}, &[]));
+                    let r = guarded(|| w.app.execute_contract(w.accts[1].clone(), w.vaults[j].clone(), &vmsg::ExecuteMsg::CollectProtocolFees {}, &extra));
                     matches!(r, Outcome::Ok(_))
                 };
-                self.last = w.observe();
+                let after = w.observe();
+                if ok {
+                    // exactly the pending fees go to the collector; coins attached to the message (by bob) are a
+                    // donation to this vault; nothing else moves, no ledger but the pending one changes
+                    let nv = w.nv;
+                    let mut eb = before.b.clone();
+                    eb.push(before.junk.clone());
+                    if let Some((sel, n)) = stray {
+                        eb[sel][1] = eb[sel][1].wrapping_sub(n);
+                        eb[sel][6 + j] += n;
+                    }
+                    let pend = before.v[j][0];
+                    eb[j][6 + j] = eb[j][6 + j].wrapping_sub(pend);
+                    eb[j][4] += pend;
+                    let mut ev = before.v.clone();
+                    ev[j][0] = 0;
+                    let same = (0..nv).all(|k| after.b[k] == eb[k]) && after.junk == eb[nv] && after.v == ev && after.sup == before.sup;
+                    mon.check("C06", "chain_collect_moves_pending_and_attached_only", same, || {
+                        format!("vault {j} collect: op `{line}` before [{}] after [{}] expected balances {eb:?}", before.show(), after.show())
+                    });
+                } else {
+                    mon.check("C06", "router_chain_all_or_nothing", before == after, || {
+                        format!("a failed collect changed an observable: op `{line}` before [{}] after [{}]", before.show(), after.show())
+                    });
+                }
+                if let Some((sel, _)) = stray {
+                    mon.stat(&format!("stray_collect_{}_{}", if sel == j { "own_asset" } else if sel < w.nv { "other_vault_asset" } else { "no_vault_denom" }, if ok { "ok" } else { "err" }));
+                }
+                self.last = after;
                 Some(ok)
             }
             "xnext" | "xcomplete" => {
@@ -852,8 +960,11 @@ impl VaultChain {
                 } else {
                     rmsg::ExecuteMsg::CompleteLoan { initiator: w.accts[i].clone(), loaned_assets: w.loaned(&l) }
                 };
-                let ok = w.call_router(who, &msg);
+                let ok = w.call_router(who, &msg, &extra);
                 let after = w.observe();
+                if stray.is_some() {
+                    mon.stat(&format!("stray_{}_{}", ws[0], if ok { "ok" } else { "err" }));
+                }
                 mon.check("C06", "router_chain_callbacks_guarded", !ok && before == after, || {
                     format!("NextLoan / CompleteLoan accepted from a stranger: op `{line}` before [{}] after [{}]", before.show(), after.show())
                 });
@@ -867,9 +978,21 @@ impl VaultChain {
 
 impl Engine for VaultChain {
     fn exec(&mut self, line: &str, mon: &mut Monitor) -> String {
-        let ws: Vec<&str> = line.split_whitespace().collect();
+        let mut ws: Vec<&str> = line.split_whitespace().collect();
         if ws.is_empty() {
             return "bad-op".into();
+        }
+        // a trailing `+<sel>:<amount>`: coins attached to the message on top of what it asks for
+        let mut stray: Stray = None;
+        if ws[0] != "init" && ws.last().map_or(false, |t| t.starts_with('+')) {
+            match parse_stray(ws[ws.len() - 1]) {
+                Some(x) => stray = Some(x),
+                None => return "bad-op".into(),
+            }
+            ws.pop();
+            if ws.is_empty() {
+                return "bad-op".into();
+            }
         }
         if ws[0] == "init" {
             self.w = None;
@@ -881,7 +1004,7 @@ impl Engine for VaultChain {
         if self.w.is_none() {
             return "bad-op".into();
         }
-        match self.exec_op(&ws, mon) {
+        match self.exec_op(&ws, stray, mon) {
             None => "bad-op".into(),
             Some(ok) => {
                 mon.stat(&format!("{}_{}", ws[0], if ok { "ok" } else { "err" }));
@@ -894,6 +1017,66 @@ impl Engine for VaultChain {
     }
 
     fn next_op(&mut self, rng: &mut Rng, step: u64) -> Option<String> {
+        let line = self.gen_op(rng, step)?;
+        if step == 0 || line.contains(" +") {
+            return Some(line);
+        }
+        // any execute message can carry coins it does not ask for
+        let t: Vec<&str> = line.split_whitespace().collect();
+        let den = match t[0] {
+            "rloan" => 8,
+            "collect" | "xnext" | "xcomplete" => 6,
+            _ => return Some(line),
+        };
+        if !rng.chance(1, den) {
+            return Some(line);
+        }
+        let w = self.w.as_ref()?;
+        let o = &self.last;
+        let nv = w.nv;
+        let sender: usize = if t[0] == "collect" { 1 } else { t[1].parse().unwrap_or(0) };
+        let own: Option<(usize, u128)> = match t[0] {
+            "rloan" => parse_loans(t[2]).and_then(|l| l.first().cloned()),
+            "collect" => t[1].parse().ok().map(|j| (j, 0)),
+            _ => None,
+        };
+        let (sel, amt) = pick_stray(rng, o, w, sender, own);
+        let _ = nv;
+        Some(format!("{line} +{sel}:{amt}"))
+    }
+}
+
+/// coins to attach: mostly of the asset the message is about (`own` = (asset, loan)), otherwise another vault's
+/// asset or the denom without a vault; amounts 1 / small / about the fee / above the loan / all / more than held
+fn pick_stray(rng: &mut Rng, o: &Obs, w: &World, sender: usize, own: Option<(usize, u128)>) -> (usize, u128) {
+    let nv = w.nv;
+    let sel = match (rng.below(10), own) {
+        (0..=5, Some((j, _))) if j < nv => j,
+        (0..=7, _) => rng.below(nv as u64) as usize,
+        _ => nv,
+    };
+    let have = if sel < nv { o.b[sel][sender] } else { o.junk[sender] };
+    let (loan, fee) = match own {
+        Some((j, n)) if j < nv => {
+            let f = w.fees[j];
+            (n, fee_of(f.0, n) + fee_of(f.1, n) + fee_of(f.2, n))
+        }
+        _ => (0, 0),
+    };
+    let amt = match rng.below(10) {
+        0 | 1 => 1,
+        2 | 3 => rng.u128() % 1000 + 1,
+        4 | 5 => (fee + rng.below(3) as u128).saturating_sub(1).max(1),
+        6 | 7 => loan + rng.u128() % 1000 + 1,
+        8 => have.max(1),
+        _ => have + 1,
+    };
+    let amt = if rng.chance(9, 10) { amt.min(have.max(1)) } else { amt };
+    (sel, amt)
+}
+
+impl VaultChain {
+    fn gen_op(&mut self, rng: &mut Rng, step: u64) -> Option<String> {
         if step == 0 {
             self.len = rng.range(4, 14);
             let nv = rng.range(3, 4) as usize;
@@ -1092,6 +1275,20 @@ impl Engine for VaultChain {
         }
         let all: Vec<(usize, u128)> = std::iter::once((j0, n0)).chain(chain.iter().cloned()).filter(|(j, _)| *j < nv).collect();
         let short_one = all[rng.below(all.len() as u64) as usize].0;
+        // one in seven of these loans carries coins ATTACHED to the router's FlashLoan; the router holds them while
+        // the payload runs, so the fundings below aim at the payback boundary with them counted in
+        let mut o = o.clone();
+        let mut suffix = String::new();
+        if rng.chance(1, 7) {
+            let (sel, amt) = pick_stray(rng, &o, w, who, Some((j0, n0)));
+            if sel < nv && w.kinds[sel] == 0 && amt <= o.b[sel][who] {
+                o.b[sel][who] -= amt;
+                o.b[sel][ROUTER] += amt;
+            }
+            self.tags.push("coins_attached".into());
+            suffix = format!(" +{sel}:{amt}");
+        }
+        let o = o;
         let fund_for = |rng: &mut Rng, j: usize, n: u128| -> Vec<RAct> {
             let need = (pb(j, n) - n).saturating_sub(o.b[j][ROUTER]);
             let want_short = mode == 2 && j == short_one;
@@ -1152,7 +1349,7 @@ impl Engine for VaultChain {
         } else if mode == 4 {
             outer.push(RAct::Fail);
         }
-        Some(format!("rloan {who} ({j0}.{n0}) {}", show_racts(&outer)))
+        Some(format!("rloan {who} ({j0}.{n0}) {}{suffix}", show_racts(&outer)))
     }
 }
 
